@@ -467,7 +467,10 @@ class Ctx:
                 props=tuple(props),
             )
         )
-        if assume_after:
+        # a failed obligation is reported, not assumed: assuming a clause the state contradicts ends
+        # the path and would hide every later failure on it (session 3: a genuine defect sat behind
+        # a recorded finding that way).  PYVC_ASSUME_FAILED=1 restores the old behaviour.
+        if assume_after and (status == "unsat" or _os0.environ.get("PYVC_ASSUME_FAILED")):
             self.assume(cond, "after prove")
         return status
 
